@@ -79,6 +79,7 @@ def run(ctx):
     used = {}
     n_sites = n_dis = n_led = n_ovf = 0
     site_index = {}   # fn id -> [(site, status)]
+    leftovers = []
     for fid in sorted(reach):
         fn = F.fns[fid]
         if not fn.blocks:
@@ -150,11 +151,38 @@ def run(ctx):
                                     "by": res[:3]})
                     site_index.setdefault(fid, []).append((s, "ledger"))
                     continue
-            site_index.setdefault(fid, []).append((s, "violation"))
-            R.violation("PANIC", "%s:%d" % (fn.loc["f"], s["line"]), "PANIC|" + key,
-                        "panic-capable site `%s` in %s is reachable from a request entry, is not discharged by a guard idiom and is not a "
-                        "reviewed ledger row%s" % (P.descriptor(fn, s), fn.name, " (%d sites share this key, %d reviewed)" % (used[key], row["max"]) if row else ""),
-                        path=_path(CG, roots, fid))
+            leftovers.append((fid, fn, s, key, row))
+    # second pass: a reviewed `x.expect(..)` / `x.unwrap()` rewritten as `let Some(v) = x else { panic!(..) }` (or back) is the
+    # same stop in other clothes - an unmatched site of one of those two kinds takes a row of the other kind that belongs to the
+    # same owner (type or module) and matched nothing at all in this run; an additional stop still finds no free row
+    for (fid, fn, s, key, row) in leftovers:
+        owner = P.panic_owner(fn)
+        is_bang = key.endswith("|panic!")
+        is_unwrap = s["kind"] == "Call" and any(x in key for x in ("::expect(", "::unwrap("))
+        taken = None
+        if is_bang or is_unwrap:
+            for k2, r2 in ledger.items():
+                if used.get(k2, 0) != 0:
+                    continue
+                k2_owner = k2.split("|")[0]
+                k2_bang = k2.endswith("|panic!")
+                k2_unwrap = "|Call|" in k2 and any(x in k2 for x in ("::expect(", "::unwrap("))
+                same_owner = k2_owner == owner or k2_owner.startswith(owner + "::") or k2_owner.rsplit("::", 1)[0] == owner
+                if same_owner and ((is_bang and k2_unwrap) or (is_unwrap and k2_bang)):
+                    taken = k2
+                    break
+        if taken is not None:
+            used[taken] = used.get(taken, 0) + 1
+            used[key] = used.get(key, 1) - 1
+            n_led += 1
+            R.ok(1, sample={"rule": "PANIC ledger (expect <-> explicit panic of the same owner)", "site": key[:100], "row": taken[:100]})
+            site_index.setdefault(fid, []).append((s, "ledger"))
+            continue
+        site_index.setdefault(fid, []).append((s, "violation"))
+        R.violation("PANIC", "%s:%d" % (fn.loc["f"], s["line"]), "PANIC|" + key,
+                    "panic-capable site `%s` in %s is reachable from a request entry, is not discharged by a guard idiom and is not a "
+                    "reviewed ledger row%s" % (P.descriptor(fn, s), fn.name, " (%d sites share this key, %d reviewed)" % (used[key], row["max"]) if row else ""),
+                    path=_path(CG, roots, fid))
     R.count("panic_sites", n_sites)
     R.count("discharged_by_idiom", n_dis)
     R.count("ledger_rows_used", n_led)
